@@ -123,12 +123,12 @@ pub fn gen_model(rng: &mut Rng, o: &GenOpts) -> Model {
     m.meta.is_dwelling = rng.chance(1, 2);
     m.meta.num_dwellings = rng.range(1, 4) as i32;
     m.meta.global_ventilation_l_s = if rng.chance(2, 3) {
-        Some(rng.f(5.0, 400.0, 1))
+        Some(if o.odd && rng.chance(1, 6) { 0.0 } else { rng.f(5.0, 400.0, 1) })
     } else {
         None
     };
     m.meta.n50_test_ach = if rng.chance(1, 3) {
-        Some(rng.f(0.5, 9.0, 2))
+        Some(if o.odd && rng.chance(1, 6) { 0.0 } else { rng.f(0.5, 9.0, 2) })
     } else {
         None
     };
